@@ -161,7 +161,12 @@ def shapes(tier):
         ("events", {"events": [(1, 1)], "lab": [60 if q else 254]}),
     ]
     if not q:
-        out += [(k, s) for k, s in codec.shapes("thorough", "C01") if k in ("fpcal", "optical", "events", "data3d", "emg", "force3d")]
+        def _masks(k, s_):
+            return s_.get("n", 1) * max(1, s_.get("tracks", s_.get("signals", s_.get("plats", 1)))) if k in ("data3d", "emg", "force3d") else 0
+        # every gap mask is a path and C12 decodes three times per path: shapes with more than
+        # 2^9 masks are left to C01/C05
+        out += [(k, s) for k, s in codec.shapes("thorough", "C01")
+                if k in ("fpcal", "optical", "events", "data3d", "emg", "force3d") and _masks(k, s) <= 9 and not s.get("edit") and not s.get("crop") and not s.get("given")]
     return out
 
 
